@@ -105,12 +105,12 @@ def unit_id(p, i, u, district_gut):
 TF_VARIANTS = [Fraction(1, 2), Fraction(2), Fraction(1, 4), Fraction(4)]  # = lo, = hi, < lo, > hi
 
 
-def materialise(pack, seed, vote_scale=3, exact_boundaries=True):
+def materialise(pack, seed, vote_scale=3, exact_boundaries=True, ballast_rep=26, ballast_non=3):
     """pack: list of abstract scenarios sharing policy, districtOffice, levels.  Returns pre, cur, meta."""
     sc0 = pack[0]
     district_gut = sc0["districtGut"]
-    brow, frow = ballast(seed, district_gut=district_gut)
-    meta = {"units": {}, "states": {}, "blocklist": [], "unit_blocklist": []}
+    brow, frow = ballast(seed, n_rep=ballast_rep, n_non=ballast_non, district_gut=district_gut)
+    meta = {"units": {}, "states": {}, "blocklist": [], "unit_blocklist": [], "ballast_rep": ballast_rep}
     for p, sc in enumerate(pack):
         assert (sc["policy"], sc["districtOffice"], list(sc["levels"])) == (
             sc0["policy"],
@@ -181,18 +181,53 @@ def materialise(pack, seed, vote_scale=3, exact_boundaries=True):
     return pre, cur, meta
 
 
-def run_pack(pack, estimator, seed, pis=(0.7, 0.9), extra_mp=None, client=None, **kw):
+class OutlierRecorder:
+    """Run-time wrapper around CombinedDataHandler._fit_outlier_detection_model: which response variables the
+    outlier model was consulted for, and which units it flagged (an oracle input of the Ledger specification)."""
+
+    def __init__(self):
+        self.calls = {}
+
+    def __enter__(self):
+        from elexmodel.handlers.data.CombinedData import CombinedDataHandler
+
+        self.cls = CombinedDataHandler
+        self.orig = CombinedDataHandler._fit_outlier_detection_model
+        rec = self
+
+        def wrapped(self_, reporting_units, response_variable, outlier_z_threshold):
+            out = rec.orig(self_, reporting_units, response_variable, outlier_z_threshold)
+            rec.calls[response_variable] = set(out["geographic_unit_fips"].tolist())
+            return out
+
+        CombinedDataHandler._fit_outlier_detection_model = wrapped
+        return self
+
+    def __exit__(self, *a):
+        self.cls._fit_outlier_detection_model = self.orig
+
+
+def run_pack(pack, estimator, seed, pis=(0.7, 0.9), extra_mp=None, client=None, ballast_rep=26, ballast_non=3, **kw):
     sc0 = pack[0]
-    pre, cur, meta = materialise(pack, seed)
+    pre, cur, meta = materialise(pack, seed, ballast_rep=ballast_rep, ballast_non=ballast_non)
     setup = EST_SETUP[estimator]
     office = "H" if sc0["districtOffice"] else "G"
     gut = "precinct-district" if sc0["districtGut"] else "precinct"
     mp = dict(setup["mp"])
     mp.update({"unit_blocklist": meta["unit_blocklist"], "postal_code_blocklist": meta["blocklist"]})
+    mp["fit_turnout_outlier_model"] = bool(sc0.get("optT", False))
+    mp["fit_margin_outlier_model"] = bool(sc0.get("optM", False))
     if extra_mp:
         mp.update(extra_mp)
     aggregates = list(sc0["levels"]) + ["unit"]
-    c, res = synth.run_client(
+    with OutlierRecorder() as rec:
+        c, res = _run_client(pre, cur, setup, office, pis, gut, aggregates, estimator, sc0, mp, client, kw)
+    meta["outlier_calls"] = rec.calls
+    return c, res, meta, (pre, cur)
+
+
+def _run_client(pre, cur, setup, office, pis, gut, aggregates, estimator, sc0, mp, client, kw):
+    return synth.run_client(
         pre,
         cur,
         estimands=setup["estimands"],
@@ -208,7 +243,6 @@ def run_pack(pack, estimator, seed, pis=(0.7, 0.9), extra_mp=None, client=None, 
         client=client,
         **kw,
     )
-    return c, res, meta, (pre, cur)
 
 
 # ----------------------------------------------------------------------------------------------------------------
@@ -222,6 +256,13 @@ def _int(x, what):
     if abs(float(x) - r) > 1e-6 * max(1.0, abs(r)):
         raise ValueError(f"non-integral value in {what}: {x!r}")
     return int(r)
+
+
+def _milli(x, what):
+    x = float(x)
+    if math.isnan(x) or math.isinf(x):
+        raise ValueError(f"non-finite value in {what}: {x}")
+    return int(round(x * 1000))
 
 
 class Projection:
@@ -260,6 +301,8 @@ class Projection:
             "pred": self._unit_out(r, f"pred_{self.est}"),
             "lower": [self._unit_out(r, f"lower_{a}_{self.est}") for a in self.pis],
             "upper": [self._unit_out(r, f"upper_{a}_{self.est}") for a in self.pis],
+            "pt": _milli(r["pred_turnout"], "unit pred_turnout") if self.est == "margin" else 0,
+            "pm": _milli(r["pred_margin"], "unit pred_margin") if self.est == "margin" else 0,
         }
         return out
 
@@ -292,7 +335,11 @@ class Projection:
                 row["pred"] = 0
                 row["lower"] = [0 for _ in self.pis]
                 row["upper"] = [0 for _ in self.pis]
+                row["pt"] = _milli(r["pred_turnout"], "group pred_turnout")
+                row["pm"] = _milli(float(r["pred_margin"]) * float(r["pred_turnout"]), "group pred_margin * pred_turnout")
             else:
+                row["pt"] = 0
+                row["pm"] = 0
                 row["counted"] = self._scaled(r[f"results_{self.est}"], f"{level} {key} counted")
                 row["pred"] = _int(r[f"pred_{self.est}"], "group pred")
                 row["lower"] = [_int(r[f"lower_{a}_{self.est}"], "group lower") for a in self.pis]
@@ -336,6 +383,8 @@ def mk_unit(i, k, st, co, cl, di, idc, idd, votes):
         "outlierT": False,
         "outlierM": False,
         "kind": k,
+        "pt": 0,
+        "pm": 0,
         "pred": v,
         "lower": [],
         "upper": [],
@@ -382,18 +431,33 @@ def random_scenario(rnd, n_units, policy, district_office, levels, allow_mismatc
         "blockStates": ["S2"] if rnd.random() < 0.15 else [],
         "nalpha": 0,
         "order": [],
+        "extraRep": 0,
+        "optT": False,
+        "optM": False,
+        "isMargin": False,
         "units": units,
     }
+
+
+def _rep_expected(sc, u):
+    """reporting expected row of the joined data (before non-modelled units are removed), as Ledger.RepExpected"""
+    matched = u["inBase"] and u["inFeed"] and u["bstate"] == u["fstate"]
+    return bool(matched and u["rep"])
 
 
 def trace_of(pack, res, meta, estimator, pis):
     """One trace element per packed scenario: sc (+ unit outputs copied from the real unit table) and obs."""
     proj = Projection(pack, res, meta, estimator, pis)
     out = []
+    calls = meta.get("outlier_calls", {})
     for p, sc in enumerate(pack):
         sc = {k: v for k, v in sc.items()}
         sc["estimator"] = estimator
         sc["nalpha"] = len(pis)
+        sc["isMargin"] = proj.est == "margin"
+        sc["extraRep"] = meta["ballast_rep"] + sum(
+            1 for q, other in enumerate(pack) if q != p for u in other["units"] if _rep_expected(other, u)
+        )
         units = []
         obs_units = []
         for idx, u in enumerate(sc["units"]):
@@ -401,12 +465,16 @@ def trace_of(pack, res, meta, estimator, pis):
             u = dict(u)
             # counted value of the estimand on the feed row (turnout: 3v, margin: v), from the scenario itself
             u["votes"] = int(u["votes"]) * proj.scale
+            fid = meta["units"][(p, idx + 1)]
+            u["outlierT"] = fid in calls.get("turnout_factor", ())
+            u["outlierM"] = fid in calls.get("results_normalized_margin", ())
             if o["present"]:
                 # the model's outputs for this unit are inputs of the ledger
                 u["pred"], u["lower"], u["upper"] = o["pred"], o["lower"], o["upper"]
+                u["pt"], u["pm"] = o["pt"], o["pm"]
             else:
                 u["pred"], u["lower"], u["upper"] = 0, [0] * len(pis), [0] * len(pis)
-                o = dict(o, state="", cat="", reporting=0, votes=0, pred=0, lower=[0] * len(pis), upper=[0] * len(pis))
+                o = dict(o, state="", cat="", reporting=0, votes=0, pred=0, lower=[0] * len(pis), upper=[0] * len(pis), pt=0, pm=0)
             units.append(u)
             obs_units.append(o)
         sc["units"] = units
@@ -419,5 +487,15 @@ def trace_of(pack, res, meta, estimator, pis):
             keystrings.update([u["bstate"], u["fstate"], u["county"], u["cls"], u["district"], u["idCounty"], u["idDistrict"]])
         keystrings.discard(NA)
         sc["order"] = sorted(keystrings)
-        out.append({"sc": sc, "obs": {"utable": obs_units, "tables": tables}})
+        out.append(
+            {
+                "sc": sc,
+                "obs": {
+                    "utable": obs_units,
+                    "tables": tables,
+                    "calledT": "turnout_factor" in calls,
+                    "calledM": "results_normalized_margin" in calls,
+                },
+            }
+        )
     return out
